@@ -124,3 +124,26 @@ def fsolve(func, x0, args=(), **kw):
         c.assume(sel(r))
     c.roots = getattr(c, 'roots', []) + [r]
     return _np.array([r], dtype=object)
+
+
+def eigh(A, *a, **k):
+    """numpy.linalg.eigh on a symbolic symmetric matrix (lower triangle): fresh eigenvalues w (ascending) and eigenvectors V with
+    A_L V = V diag(w) and V^T V = 1 as contract facts"""
+    from .npshim import _sa
+    A = _np.asarray(A)
+    if A.dtype != object:
+        return _np.linalg.eigh(A, *a, **k)
+    cx = Ctx.cur
+    n = A.shape[0]
+    AL = _np.array([[A[max(i, j), min(i, j)] for j in range(n)] for i in range(n)], dtype=object)
+    w = fresh_array('eig', (n,))
+    V = fresh_array('eig', (n, n))
+    for c in range(n):
+        lhs = AL.dot(V[:, c])
+        for i in range(n):
+            cx.fact(tz(lhs[i]) == tz(V[i, c] * w[c]))
+        if c:
+            cx.fact(tz(w[c - 1]) <= tz(w[c]))
+        for l in range(c + 1):
+            cx.fact(tz(V[:, l].dot(V[:, c])) == (1 if l == c else 0))
+    return _sa(w), V
